@@ -4,8 +4,46 @@
 From Coq Require Import List NArith Bool Arith Sorted.
 From Coq Require Import Strings.Byte.
 Require Import BS.Bytes BS.Common BS.Api BS.Layout BS.Format BS.FormatFacts BS.Spec BS.SpecStep.
-Require Import BS.FS BS.FSFacts BS.Meta BS.MetaFacts BS.Header BS.Reader BS.ReaderFacts BS.Index BS.Data BS.DataFacts BS.Seek BS.Series BS.SeriesFacts.
+Require Import BS.FS BS.FSFacts BS.Meta BS.MetaFacts BS.Header BS.Reader BS.ReaderFacts BS.Index BS.Data BS.DataFacts BS.Seek BS.Series BS.SeriesFacts BS.ReadAllFacts BS.CorruptFacts.
 Import ListNotations.
 
-(* theorems for this property are added as the development grows; until then the property is
-   decided by the judge (Layer S/F, extracted) on the implementation and by the correspondence check *)
+
+
+(* Layer S's skipping decoder (Spec.lstep / Spec.lenient): data lines are decoded against the last full
+   timestamp; a marker line whose successor is not one is a lone marker: from there everything is dropped
+   until two marker lines in a row start a complete section. `certified p f bytes` is its run over `bytes`
+   starting after a section with full timestamp f; l_sure its lines (newest first), l_first how many lines it
+   had produced when it met the first lone marker. The judge uses the same decoder on the damaged file and
+   checks, per history, that the certified lines are a subsequence of the lines that were appended. *)
+
+(* (I refines S) with a consenting callback, for ANY bytes (any number of damaged lines, any position, any
+   payload size, any chunking of the read), the reader hands the processor exactly the certified lines: no line
+   between a lone marker and the next complete section, no line decoded against a stale full timestamp; it
+   panics only if the processor does or a timestamp leaves u64 *)
+Theorem C18_consent : forall (St:Type) (proc:St -> N -> list byte -> pres St) (p:nat)
+    (region:list byte) (start stop:nat) (f:N) (acc:St),
+  start <= stop -> stop <= length region -> (stop - start) mod (p + 2) = 0 ->
+  read_with_processor St proc p CbAllow region (N.of_nat start) (N.of_nat stop) f acc
+  = match feed St proc acc (rev (l_sure (certified p f (firstn (stop - start) (skipn start region))))) with
+    | PCont a => RDone a | PStop a => RStopped a | PPanic => RPanic
+    end.
+Proof. exact read_consent. Qed.
+Print Assumptions C18_consent.
+
+(* (I refines S) without consent (no callback, or one that answers false): exactly the certified lines before
+   the first lone marker, then Error::CorruptMetaSection; when there is no lone marker, all lines and no error *)
+Theorem C18_no_consent : forall (St:Type) (proc:St -> N -> list byte -> pres St) (p:nat) (cb:cbmode)
+    (region:list byte) (start stop:nat) (f:N) (acc:St), cb <> CbAllow ->
+  start <= stop -> stop <= length region -> (stop - start) mod (p + 2) = 0 ->
+  let c := certified p f (firstn (stop - start) (skipn start region)) in
+  read_with_processor St proc p cb region (N.of_nat start) (N.of_nat stop) f acc
+  = match l_first c with
+    | None => match feed St proc acc (rev (l_sure c)) with PCont a => RDone a | PStop a => RStopped a | PPanic => RPanic end
+    | Some k => match feed St proc acc (firstn k (rev (l_sure c))) with PCont a => RCorrupt a | PStop a => RStopped a | PPanic => RPanic end
+    end.
+Proof. exact read_no_consent. Qed.
+Print Assumptions C18_no_consent.
+(* partial: (1) that the certified lines of a file with ONE damaged line are a subsequence of the appended lines is
+   checked by the judge for every history it sees (Spec.is_subseq in SpecStep.open_damaged), not proved for all
+   histories; (2) the theorems are about the reader; the seek that precedes a read between bounds decodes damaged
+   lines too and is judged only for "genuine lines or an error". *)
